@@ -93,3 +93,29 @@ func VerifC01Parse(tracked int) {
 		_ = f.HasIP()
 	}
 }
+
+// VerifC01LLDPArgs: the LLDP accessors that take arguments (excluded from the generated zero-argument view harness).
+func VerifC01LLDPArgs(maxN int) {
+	n := verifInt()
+	c := verifInt()
+	verifAssume(0 <= n && n <= maxN && n <= c && c <= 1600)
+	buf := verifBytes(1600)
+	b := buf[0:n:verifCapFor(n, c)]
+	verifTagInput(b)
+	p := LLDP(b)
+	if p.IsValid() != nil {
+		return
+	}
+	verifReach("valid")
+	switch verifChoose(3) {
+	case 0:
+		t := verifInt()
+		verifAssume(t >= 0 && t < 128)
+		verifInside(b, p.GetPDU(t), "LLDP.GetPDU")
+	case 1:
+		_ = p.Type(int(verifU8()))
+	case 2:
+		v := verifBytes(3)
+		_ = p.Capability(v[:verifChoose(4)])
+	}
+}
